@@ -45,6 +45,10 @@ CHECKS = {
    technique='deterministic simulation of call histories: seeded sequences of assemble() calls on related programs, file edits, chdir, calls torn down at arbitrary executed lines and SimFS read faults, all in one process; refinement against a pristine-process reference obtained by fork; invariants on module tables, earlier results and caller objects after every step; re-execution in fresh interpreters under different PYTHONHASHSEED',
    text='Seeded search over histories of 4-24 operations on a pool of definer/user program pairs sharing names (built so that leakage turns a refusal into an acceptance or changes bytes); every step is compared with the same call on the same snapshot in a process that never assembled anything; a sample of histories and CLI runs is repeated under 3 hash seeds in fresh interpreters.',
    note='Trusted: fork gives the pristine state; a non-empty constants argument is an input; crashed steps are faults whose own outcome is not compared; threads are out of scope (the property speaks of call histories). Only the named semantic tables and function defaults are invariants; other module-level containers (caches) are judged by their effect.'),
+ 'C15': dict(engine='simfs', category='fault_enumeration', ref='3.6',
+   technique='deterministic simulation with fault injection (borderline, see DESIGN 3.6): systematic fault-point sweep - every faulty-line shape of every listed class planted into generated include trees on an in-memory file system at every include depth x position x compress mode, API and CLI from varying working directories; missing include files as file-system states; environment faults as observations',
+   text='Every fault shape (about 230 lines over 11 classes) x include depth {0,1,>=2} x position {first,middle,last} is enumerated, each in a fresh generated tree, assembled with compress off and on through the API and once through the CLI; the refusal must be AssemblerError naming the planted file and physical line.',
+   note='Trusted: the fault planter inserts exactly one faulty line (data faults with a following align 4) into an otherwise valid tree; accepted programs give no verdict; lines that merely lack operands and environment faults are observations.'),
 }
 
 def main():
